@@ -40,7 +40,7 @@ CONFIG = dict(
     min_nontrivial={"quick": 1500, "thorough": 20000},
     nshards={"quick": 8, "thorough": 16},
     timeout={"quick": 900, "thorough": 5400},
-    required_counters=("rewritten_file_loads", "gate_checks", "returned_loads_compared", "nonreturning_effect_checks",
+    required_counters=("rewritten_file_loads", "unwritable_report_loads", "gate_checks", "returned_loads_compared", "nonreturning_effect_checks",
                        "failpoints_fired", "toctou_swaps", "executed_vs_analysed_compared", "sequence_probes"),
 )
 
@@ -775,9 +775,71 @@ def file_rewrite_histories(ctx, mods):
                         os.remove(p)
 
 
+def unwritable_report(ctx, mods):
+    """The optional JSON report cannot be written (its directory is gone, the path is a directory, the file is
+    read-only): a refusal stays a refusal - nothing is loaded because a *report* failed."""
+    import stat
+    import vp_sink
+    fickling, f, analysis, loader, hook, U = mods
+    agg = ctx.agg
+    flagged = [b"cvp_sink\nhit\n(S'REPORT'\ntR.", b"\x80\x04\x8c\x07vp_sink\x8c\x03hit\x93\x8c\x06REPORT\x85R.", b"cvp_sink\nhit\n(F1.5\ntR.",
+               b"(S'REPORT'\nivp_sink\nhit\n.", b"ccollections\nOrderedDict\n)R0cvp_sink\nhit\n(S'REPORT'\ntR."]
+    ro = os.path.join(ctx.scratch, "c02_readonly.json")
+    with open(ro, "w") as fh:
+        fh.write("")
+    os.chmod(ro, stat.S_IRUSR)
+    adir = os.path.join(ctx.scratch, "c02_is_a_dir")
+    os.makedirs(adir, exist_ok=True)
+    reports = {"missing-directory": os.path.join(ctx.scratch, "c02_gone", "sub", "report.json"), "path-is-a-directory": adir,
+               "read-only-file": ro, "empty-string-ok": os.path.join(ctx.scratch, "c02_report_ok.json")}
+    idx = 0
+    for data in flagged:
+        for path_kind in ("loader", "hook", "context"):
+            for rname, rpath in reports.items():
+                for thr in ("LIKELY_SAFE", "POSSIBLY_UNSAFE"):
+                    idx += 1
+                    if idx % ctx.nshards != ctx.shard:
+                        continue
+                    key = h(f"report|{rname}|{path_kind}|{thr}|".encode() + data)
+                    agg.case(key, True, {"label": "unwritable-report", "path": path_kind, "report": rname, "threshold": thr})
+                    del vp_sink.LOG[:]
+                    kw = {"json_output_path": rpath}
+                    try:
+                        with monitor.Recording() as rec:
+                            try:
+                                if path_kind == "loader":
+                                    fickling.load(io.BytesIO(data), max_acceptable_severity=getattr(analysis.Severity, thr), **kw)
+                                elif path_kind == "hook":
+                                    fickling.always_check_safety()
+                                    pickle.load(io.BytesIO(data), **kw)
+                                else:
+                                    with fickling.check_safety():
+                                        pickle.load(io.BytesIO(data), **kw)
+                                res = "returned"
+                            except U:
+                                res = "blocked"
+                            except Exception as e:
+                                res = "other:" + type(e).__name__
+                    finally:
+                        hook.remove_hook()
+                    ran = list(vp_sink.LOG)
+                    del vp_sink.LOG[:]
+                    finds = [s_ for n_, s_ in rec.events if n_ == "pickle.find_class"]
+                    agg.count("unwritable_report_loads")
+                    if res == "returned" or ran or finds:
+                        agg.violation(f"returned-above-threshold:{path_kind}:report-{rname}",
+                                      f"flagged pickle, JSON report path {rname}: the load {res}, resolved {finds[:2]}, ran {ran[:1]}",
+                                      {"label": "unwritable-report", "hex": data.hex(), "path": path_kind, "report": rname, "threshold": thr})
+    os.chmod(ro, stat.S_IRUSR | stat.S_IWUSR)
+    for pth in (ro, reports["empty-string-ok"]):
+        if os.path.exists(pth):
+            os.remove(pth)
+
+
 def run_shard(ctx):
     mods, watch = setup(ctx)
     file_rewrite_histories(ctx, mods)
+    unwritable_report(ctx, mods)
     for i, c in enumerate(cases(ctx, mods)):
         if i % ctx.nshards != ctx.shard:
             continue
